@@ -29,6 +29,29 @@ SnPresetSet == {SnPresets[k] : k \in DOMAIN SnPresets}
 \* set_all_types_filter applies the filter to every type that accepts it (Lifecycle.tla)
 SnPresetFilters(f) == IF f = -1 THEN DefaultFilters ELSE ApplyFilterSeq(DefaultFilters, AllTypesSeq, f)
 
+\* a configuration's filters: the preset, then optionally ONE hwloc_topology_set_type_filter(ty, f) (ty = -1: none);
+\* an illegal (type, filter) pair is refused and leaves the preset (Lifecycle.tla)
+SnCfgFilters(filt, ty, f) == IF ty = -1 THEN SnPresetFilters(filt) ELSE ApplyFilter(SnPresetFilters(filt), ty, f)
+\* the types whose filter may be changed at all
+SnTargetable == (0..(NTYPES - 1)) \ {MACHINE, PU, NUMANODE}
+
+(* ---- what makes a single removal interesting: feature classes of snapshots x path classes of per-instance attributes ---- *)
+\* feature classes (tools/props/c18.py derives them from the content of the snapshot):
+\*   cpuless  a NUMA node without CPUs           hmat     memory initiators / memory-side caches (heterogeneous memory)
+\*   knl      Knights Landing (MCDRAM quirks)     sparse   NUMA node or CPU numbers with holes
+\*   offline  CPUs present but offline            kinds    CPU kinds (capacity, frequencies, hybrid core types)
+SnFeatureClasses == {"cpuless", "hmat", "knl", "sparse", "offline", "kinds", "plain"}
+SnNodeFeatures == {"cpuless", "hmat", "knl", "sparse"}
+SnCpuFeatures == {"offline", "kinds"}
+\* path classes: the attributes below ONE numbered instance directory (sys/devices/system/node/nodeN, .../cpu/cpuN)
+SnNodePathClasses == {"node.cpumap", "node.distance", "node.meminfo", "node.hmat"}
+SnCpuPathClasses == {"cpu.topology", "cpu.cache", "cpu.online", "cpu.kind"}
+SnPathClasses == SnNodePathClasses \cup SnCpuPathClasses
+\* discovery treats the NUMA nodes of a snapshot individually when the memory is not uniform (locality of CPU-less nodes
+\* from distances or initiators, KNL MCDRAM, node numbers as array indexes), and its CPUs when they are not uniform
+SnInteresting(fc, pc) == \/ fc \in SnNodeFeatures /\ pc \in SnNodePathClasses
+                         \/ fc \in SnCpuFeatures /\ pc \in SnCpuPathClasses
+
 (* ---- the instance-directory rule ---- *)
 Digits == {"0", "1", "2", "3", "4", "5", "6", "7", "8", "9"}
 EndsInDigit(path) == Len(path) > 0 /\ SubSeq(path, Len(path), Len(path)) \in Digits
@@ -44,11 +67,11 @@ FaultSetOK(tab, rs) == rs \subseteq 1..tab.np /\ \A i \in rs : tab.removable[i] 
 (* ---- outcomes and the four relations ---- *)
 \* (1) a load fails cleanly with -1 or yields a well-formed topology carrying the configuration
 LoadFails(ret, live) == ret = -1 /\ live = 0
-LoadYields(ret, live, t, filt, flags) ==
+LoadYields(ret, live, t, filt, ty, f, flags) ==
   /\ ret = 0 /\ live = 1
   /\ t.n > 0
   /\ t.flags = flags
-  /\ t.filters = SnPresetFilters(filt)
+  /\ t.filters = SnCfgFilters(filt, ty, f)
   /\ \A i \in Pos(t) : O(t, i).ud = 0
 \* WellFormed(t) (Topology.tla) is conjoined by the caller, which may know it already for this very projection
 
